@@ -240,6 +240,9 @@ pub struct Kanata {
     /// When > 0, it means macros should be cancelled on the next press.
     /// Upon cancelling this should be set to 0.
     pub macro_on_press_cancel_duration: u32,
+    /// Set when a tick changed the layout's key states after the pressed keys were read for that
+    /// tick. The change reaches the OS with the next tick, so until then kanata is not idle.
+    keystate_changed_after_read: bool,
     /// Stores user's saved clipboard contents.
     pub saved_clipboard_content: SavedClipboardData,
 }
@@ -445,6 +448,7 @@ impl Kanata {
             gui_opts: cfg.options.gui_opts,
             allow_hardware_repeat: cfg.options.allow_hardware_repeat,
             macro_on_press_cancel_duration: 0,
+            keystate_changed_after_read: false,
             saved_clipboard_content: Default::default(),
         })
     }
@@ -581,6 +585,7 @@ impl Kanata {
             gui_opts: cfg.options.gui_opts,
             allow_hardware_repeat: cfg.options.allow_hardware_repeat,
             macro_on_press_cancel_duration: 0,
+            keystate_changed_after_read: false,
             saved_clipboard_content: Default::default(),
         })
     }
@@ -1030,6 +1035,7 @@ impl Kanata {
         let mut live_reload_requested = false;
         let cur_keys = &mut self.cur_keys;
         cur_keys.extend(layout.keycodes());
+        let num_states_when_keys_were_read = layout.states.len();
         let mut reverse_release_order = false;
 
         // Deal with unmodded. Unlike other custom actions, this should come before key presses and
@@ -1779,6 +1785,8 @@ impl Kanata {
             _ => {}
         };
 
+        self.keystate_changed_after_read =
+            self.layout.bm().states.len() != num_states_when_keys_were_read;
         self.check_release_non_physical_shift()?;
         Ok(live_reload_requested)
     }
@@ -2163,6 +2171,7 @@ impl Kanata {
             && self.layout.b().last_press_tracker.tap_hold_timeout == 0
             && self.layout.b().oneshot.keys.is_empty()
             && self.layout.b().oneshot.pause_input_processing_ticks == 0
+            && !self.keystate_changed_after_read
             && self.layout.b().active_sequences.is_empty()
             && self.layout.b().tap_dance_eager.is_none()
             && self.layout.b().action_queue.is_empty()
